@@ -43,16 +43,35 @@ def c08_coverage(res, n_runs, t_batch, workers):
     cov['containers_tracked_by_census'] = res.extra.get('containers_tracked', 0)
     cov['systematic_sweep'] = (
         'the first sweep_size(tier) evaluations are deterministic: a systematic fault sweep (sim/gen_sweep.py: %d call shapes x '
-        'evenly spaced F5/F4/F3 placements, each followed by probes) plus %d scripted fault-free scenarios (every kind of host '
-        'action between two looks at the same objects; every syntax from three fresh configs in a row): quick %d, thorough %d '
-        'histories; all further evaluations are seeded histories' % (
+        'evenly spaced F5/F4/F3 placements, each followed by probes) plus %d scripted scenarios (every kind of host '
+        'action between two looks at the same objects; every syntax from three fresh configs in a row; every documented option '
+        'flipped between two configs around a failing call) plus the exhaustive fault placement (see exhaustive_fault_placement): '
+        'quick %d, thorough %d histories; all further evaluations are seeded histories' % (
             len(gen_sweep.shapes()), len(gen_sweep.scenarios()), gen_sweep.sweep_size('quick'), gen_sweep.sweep_size('thorough')))
+    nx = dict((t, gen_sweep.xh_size(t)) for t in ('quick', 'thorough'))
+    cov['exhaustive_fault_placement'] = {
+        'what': 'the last part of the deterministic prefix: for %d call shapes (quick: %d) fault F5 is delivered once at EVERY library '
+                'function entry n = 1..N of the call (quick: alternating flavours Exception/BaseException; thorough: every entry with '
+                'both flavours; for the two ~70 000-entry cache-filling stylesheet calls the first and last entries one by one and '
+                'the middle with a stride), each placement followed by probes on the same objects and compared with pristine forks; '
+                '%d placements per history, a steady-state census closes every history'
+                % (len(gen_sweep.xh_shapes()), len([1 for x in gen_sweep.xh_shapes() if 'quick' in x[6].split()]), gen_sweep.XH_CHUNK),
+        'placements_planned': {'quick': nx['quick'][1], 'thorough': nx['thorough'][1]},
+        'placements_in_this_batch': res.counters.get('exhaustive:placements', 0),
+        'placements_fired_in_this_batch': res.counters.get('exhaustive:placements-fired', 0),
+        'note': 'a placement beyond the real number of entries of the call does not fire and leaves an ordinary, compared call; caps '
+                'are the entry counts of the pinned tree x 1.25 + one chunk, and a fault that still fires in the last chunk of a shape is '
+                'reported as a WARNING (cap too low)',
+    }
     cov['samples'] = [sample_of(o) for o in res.samples[:4]]
     return cov
 
 
 def c08_warnings(res, tier):
     out = []
+    for k in sorted(res.counters):
+        if k.startswith('exhaustive:fired-in-last-chunk'):
+            out.append('exhaustive fault placement: %s (the call now has more function entries than the sweep walks)' % k)
     need = ['probe:raise-inside-text-removed-window', 'probe:cache-hit-under-options-different-from-filling-call',
             'probe:cache-hit-on-numeric-default-under-other-options', 'probe:Config-instance-reused-after-raising-call',
             'probe:BEM-call-repeated', 'probe:peer-failed-mid-format',
